@@ -64,6 +64,9 @@ structure Inv (s : State) : Prop where
 theorem inv_init : Inv init := by
   refine ⟨?_, ?_, ?_, ?_, ?_, ?_, ?_, ?_, ?_⟩ <;> simp [init]
 
+theorem inv_initCfg (cap wcap : Option Nat) : Inv (initCfg cap wcap) := by
+  refine ⟨?_, ?_, ?_, ?_, ?_, ?_, ?_, ?_, ?_⟩ <;> simp [initCfg]
+
 macro "csimp" : tactic => `(tactic| simp only [List.count_append, List.count_cons, List.count_nil, beq_iff_eq,
     List.append_nil, List.nil_append])
 
@@ -240,11 +243,29 @@ theorem inv_pushthrow (s : State) (ha : s.alive = true) (h : Inv s) : Inv (stepP
     · have : excs [(⟨w, Out.canceled⟩ : Ev)] = [] := rfl
       simp only [excs_append, this, List.append_nil]; exact h9
 
+theorem inv_pushC (s : State) (p v : Nat) (ha : s.alive = true) (h : Inv s) : Inv (stepPushC s p v).1 := by
+  unfold stepPushC; split
+  · exact h
+  · exact inv_push s p v ha h
+
+theorem inv_pushThrowC (s : State) (ha : s.alive = true) (h : Inv s) : Inv (stepPushThrowC s).1 := by
+  unfold stepPushThrowC; split
+  · exact h
+  · exact inv_pushthrow s ha h
+
+theorem inv_popC (s : State) (c : Nat) (ha : s.alive = true) (h : Inv s) : Inv (stepPopC s c).1 := by
+  unfold stepPopC; split
+  · exact h
+  · exact inv_pop s c ha h
+
 theorem inv_step (s : State) (op : Op) (h : Inv s) : Inv (step s op).1 := by
   unfold step
   cases op <;> simp only <;> (try split) <;> (try unfold stepLive) <;> (try simp only) <;>
     first
     | exact h
+    | exact inv_pushC s _ _ (by assumption) h
+    | exact inv_pushThrowC s (by assumption) h
+    | exact inv_popC s _ (by assumption) h
     | exact inv_pushthrow s (by assumption) h
     | exact inv_push s _ _ (by assumption) h
     | exact inv_pop s _ (by assumption) h
@@ -257,12 +278,42 @@ theorem inv_run (s : State) (ops : List Op) (h : Inv s) : Inv (run s ops) := by
   | nil => exact h
   | cons op ops ih => exact ih (step s op).1 (inv_step s op h)
 
-/-- every reachable state: any operation list from the empty queue -/
-def Reachable (s : State) : Prop := ∃ ops, s = run init ops
+/-- every reachable state: any configuration of the backing stores (`std_queue` / bounded such as `single_item_queue`),
+any operation list from the empty queue -/
+def Reachable (s : State) : Prop := ∃ cap wcap ops, s = run (initCfg cap wcap) ops
 
 theorem reachable_inv {s : State} (h : Reachable s) : Inv s := by
-  obtain ⟨ops, rfl⟩ := h
-  exact inv_run init ops inv_init
+  obtain ⟨cap, wcap, ops, rfl⟩ := h
+  exact inv_run (initCfg cap wcap) ops (inv_initCfg cap wcap)
+
+theorem cfg_step (s : State) (op : Op) : (step s op).1.cap = s.cap ∧ (step s op).1.wcap = s.wcap := by
+  have hpush : ∀ p v, (stepPushC s p v).1.cap = s.cap ∧ (stepPushC s p v).1.wcap = s.wcap := by
+    intro p v; unfold stepPushC stepPush; split <;> (try split) <;> exact ⟨rfl, rfl⟩
+  have hthrow : (stepPushThrowC s).1.cap = s.cap ∧ (stepPushThrowC s).1.wcap = s.wcap := by
+    unfold stepPushThrowC stepPushThrow; split <;> (try split) <;> exact ⟨rfl, rfl⟩
+  have hpop : ∀ c, (stepPopC s c).1.cap = s.cap ∧ (stepPopC s c).1.wcap = s.wcap := by
+    intro c; unfold stepPopC stepPop; split <;> (try split) <;> exact ⟨rfl, rfl⟩
+  have hupop : ∀ c, (stepUpop s c).1.cap = s.cap ∧ (stepUpop s c).1.wcap = s.wcap := by
+    intro c; unfold stepUpop; split <;> exact ⟨rfl, rfl⟩
+  have hdel : ∀ k, (stepDeliver s k).1.cap = s.cap ∧ (stepDeliver s k).1.wcap = s.wcap := by
+    intro k; unfold stepDeliver; split <;> exact ⟨rfl, rfl⟩
+  unfold step
+  cases op <;> simp only <;> (try split) <;> (try unfold stepLive) <;> (try simp only) <;>
+    first
+    | exact ⟨rfl, rfl⟩
+    | exact hpush _ _
+    | exact hthrow
+    | exact hpop _
+    | exact hupop _
+    | exact hdel _
+
+theorem cfg_run (s : State) (ops : List Op) : (run s ops).cap = s.cap ∧ (run s ops).wcap = s.wcap := by
+  induction ops generalizing s with
+  | nil => exact ⟨rfl, rfl⟩
+  | cons op ops ih =>
+    have h1 := ih (step s op).1
+    have h2 := cfg_step s op
+    exact ⟨h1.1.trans h2.1, h1.2.trans h2.2⟩
 
 theorem perm_of_inv {s : State} (h : Inv s) : (s.inflight ++ s.completed).Perm s.served := by
   rw [List.perm_iff_count]
@@ -290,11 +341,13 @@ def forgetRes : Res → Res
 
 /-- the `queue<void>` state that a `queue<T>` state looks like when the items are reduced to their number -/
 def abs (s : Q.State) : VQ.State :=
-  { sz := s.items.length, waiters := s.waiters, inflight := s.inflight.map forget, nextPop := s.nextPop,
+  { wcap := s.wcap, sz := s.items.length, waiters := s.waiters, inflight := s.inflight.map forget, nextPop := s.nextPop,
     nPush := s.nextPush, alive := s.alive, served := s.served.map forget,
     completed := s.completed.map forget, unblocks := s.unblocks }
 
 theorem init_abs : abs Q.init = VQ.init := rfl
+
+theorem initCfg_abs (wcap : Option Nat) : abs (Q.initCfg none wcap) = VQ.initCfg wcap := rfl
 
 theorem eraseIdx_map {α β} (f : α → β) (l : List α) (k : Nat) : (l.map f).eraseIdx k = (l.eraseIdx k).map f := by
   induction l generalizing k with
@@ -352,7 +405,24 @@ theorem empty_abs (s : Q.State) : ((abs s).sz == 0) = s.items.isEmpty := by
   unfold abs; cases s.items <;> simp
 
 /-- `queue<void>` is `queue<T>` with the items reduced to their number: every step commutes with `abs` -/
-theorem step_abs (s : Q.State) (op : Op) :
+theorem pushC_none (s : Q.State) (p v : Nat) (hc : s.cap = none) : Q.stepPushC s p v = Q.stepPush s p v := by
+  simp [Q.stepPushC, Q.itemsFull, hc]
+
+theorem pushThrowC_none (s : Q.State) (hc : s.cap = none) : Q.stepPushThrowC s = Q.stepPushThrow s := by
+  simp [Q.stepPushThrowC, Q.itemsFull, hc]
+
+theorem popC_abs (s : Q.State) (c : Nat) :
+    VQ.stepPopC (abs s) c = (abs (Q.stepPopC s c).1, forgetRes (Q.stepPopC s c).2) := by
+  have e1 : ((abs s).sz == 0) = s.items.isEmpty := empty_abs s
+  have e2 : VQ.waitersFull (abs s) = Q.waitersFull s := rfl
+  unfold VQ.stepPopC Q.stepPopC
+  rw [e1, e2]
+  split
+  · rfl
+  · exact pop_abs s c
+
+/-- (`queue<void>` cannot have a bounded item store: `single_item_queue<void>` does not exist - hence `cap = none`) -/
+theorem step_abs (s : Q.State) (op : Op) (hc : s.cap = none) :
     VQ.step (abs s) op = (abs (Q.step s op).1, forgetRes (Q.step s op).2) := by
   have e : (abs s).alive = s.alive := rfl
   unfold VQ.step Q.step
@@ -360,15 +430,15 @@ theorem step_abs (s : Q.State) (op : Op) :
   | deliver k => exact deliver_abs s k
   | push p v =>
     simp only [e]; split
-    · exact push_abs s p v
+    · simp only [VQ.stepLive, Q.stepLive, pushC_none s p v hc]; exact push_abs s p v
     · rfl
   | pushthrow =>
     simp only [e]; split
-    · exact pushthrow_abs s
+    · simp only [VQ.stepLive, Q.stepLive, pushThrowC_none s hc]; exact pushthrow_abs s
     · rfl
   | pop c =>
     simp only [e]; split
-    · exact pop_abs s c
+    · exact popC_abs s c
     · rfl
   | upop c =>
     simp only [e]; split
@@ -387,21 +457,22 @@ theorem step_abs (s : Q.State) (op : Op) :
     · exact destroy_abs s
     · rfl
 
-theorem run_abs (s : Q.State) (ops : List Op) : VQ.run (abs s) ops = abs (Q.run s ops) := by
+theorem run_abs (s : Q.State) (ops : List Op) (hc : s.cap = none) : VQ.run (abs s) ops = abs (Q.run s ops) := by
   induction ops generalizing s with
   | nil => rfl
   | cons op ops ih =>
     simp only [VQ.run, Q.run, List.foldl_cons] at ih ⊢
-    rw [step_abs]; exact ih _
+    rw [step_abs s op hc]; exact ih _ ((Q.cfg_step s op).1.trans hc)
 
-def Reachable (t : VQ.State) : Prop := ∃ ops, t = VQ.run VQ.init ops
+def Reachable (t : VQ.State) : Prop := ∃ wcap ops, t = VQ.run (VQ.initCfg wcap) ops
 
-theorem run_init_abs (ops : List Op) : VQ.run VQ.init ops = abs (Q.run Q.init ops) := by
-  rw [← init_abs]; exact run_abs Q.init ops
+theorem run_init_abs (wcap : Option Nat) (ops : List Op) :
+    VQ.run (VQ.initCfg wcap) ops = abs (Q.run (Q.initCfg none wcap) ops) := by
+  rw [← initCfg_abs]; exact run_abs _ ops rfl
 
 theorem reachable_abs {t : VQ.State} (h : Reachable t) : ∃ s, Q.Reachable s ∧ t = abs s := by
-  obtain ⟨ops, rfl⟩ := h
-  exact ⟨Q.run Q.init ops, ⟨ops, rfl⟩, run_init_abs ops⟩
+  obtain ⟨wcap, ops, rfl⟩ := h
+  exact ⟨Q.run (Q.initCfg none wcap) ops, ⟨none, wcap, ops, rfl⟩, run_init_abs wcap ops⟩
 
 theorem length_filter_ok (l : List Ev) (hno : ∀ e ∈ l, e.out ≠ Out.ok) :
     ((l.map forget).filter (fun e => e.out == Out.ok)).length = (vals l).length := by
